@@ -4,7 +4,7 @@ gen_C01: `hash.<alg> <msg>` — every length 0..=4*rate+1 (exhaustive, random co
          rate-1 / rate / rate+1 and multiples once more with content that collides with the padding bytes
          (all 0x00, all 0xff, trailing 0x06/0x01/0x80/0x86/0x81), lengths around large multiples of the rate,
          random lengths up to 8 KiB (quick) / 64 KiB (thorough).
-gen_C02: `hctx.<alg> <prog>` — exhaustive op histories (depth 3 quick; thorough adds depth 4) over
+gen_C02: `hctx.<alg> <prog>` — exhaustive op histories (depth 3 quick; thorough adds depth 4, complete, for all 8) over
          {update(c), update_mut(c), clone, swap, reset, finalize_reset, finalize-of-clone} with
          c in {0, 1, rate-1, rate, rate+1, 2*rate+3}, every history closed by a final `d`;
          random histories of 5..40 ops.
@@ -47,8 +47,8 @@ def gen_C01(tier, rng):
         # random
         for _ in range(4 if tier == "quick" else 16):
             yield (f"hash.{alg} {hx(rng.rbytes(rng.randrange(0, big + 1)))}", "len.random")
-        if tier == "thorough":
-            yield (f"hash.{alg} {hx(rng.rbytes(65536))}", "len.random")
+        # the upper end of the sampled range the property names (64 KiB), once per algorithm in both tiers
+        yield (f"hash.{alg} {hx(rng.rbytes(65536))}", "len.64KiB")
 
 
 def _chunks(rate):
@@ -81,15 +81,14 @@ def gen_C02(tier, rng):
             for seq in itertools.product(syms, repeat=depth):
                 yield (f"hctx.{alg} {_render(list(seq) + [('d', None)], rng)}", f"exh.depth{depth}")
         if tier == "thorough":
-            if alg in ("sha3_224", "keccak512"):
-                for seq in itertools.product(syms, repeat=4):
-                    yield (f"hctx.{alg} {_render(list(seq) + [('d', None)], rng)}", "exh.depth4")
-            else:
-                # depth 4 over the update alphabet only (every sequence of 4 chunk lengths), then finalize_reset,
-                # one more chunk and finalize: the second digest checks the state left by finalize_reset
-                for lens in itertools.product(_chunks(rate), repeat=4):
-                    seq = [(rng.choice("um"), c) for c in lens] + [("F", None), ("u", rng.choice(_chunks(rate))), ("d", None)]
-                    yield (f"hctx.{alg} {_render(seq, rng)}", "exh.depth4.updates")
+            # depth 4 complete (17^4 = 83521 histories) for every one of the 8 sponge algorithms
+            for seq in itertools.product(syms, repeat=4):
+                yield (f"hctx.{alg} {_render(list(seq) + [('d', None)], rng)}", "exh.depth4")
+            # and every sequence of 4 chunk lengths, then finalize_reset, one more chunk and finalize: the second digest
+            # checks the state left by finalize_reset
+            for lens in itertools.product(_chunks(rate), repeat=4):
+                seq = [(rng.choice("um"), c) for c in lens] + [("F", None), ("u", rng.choice(_chunks(rate))), ("d", None)]
+                yield (f"hctx.{alg} {_render(seq, rng)}", "exh.depth4.updates")
         # random histories
         for _ in range(40 if tier == "quick" else 300):
             n = rng.randrange(5, 41)
